@@ -275,6 +275,8 @@ func cmdCheck(args []string) int {
 				cfg.TimeoutMs = v
 			case "MaxDepth":
 				cfg.MaxDepth = v
+			case "MaxSeconds":
+				cfg.MaxSeconds = v
 			}
 		}
 	}
@@ -572,6 +574,11 @@ func cmdCheck(args []string) int {
 	eb, _ := json.MarshalIndent(ev, "", " ")
 	os.WriteFile(filepath.Join(verifDir, "evidence", *prop+".json"), eb, 0o644)
 
+	if os.Getenv("SYMGO_PROGRESS") != "" {
+		for _, f := range eng.ForkSites(25) {
+			fmt.Fprintln(os.Stderr, "fork", f)
+		}
+	}
 	for _, l := range lines {
 		fmt.Println(l)
 	}
